@@ -1,6 +1,7 @@
 package main
 
 import (
+	"strconv"
 	"encoding/json"
 	"fmt"
 	"os"
@@ -202,27 +203,41 @@ func solveFunction(fr *FuncResult, opts CheckOpts) {
 			}
 		}(o)
 	}
-	// covers: at most two path instances per return site
+	// covers: the requires clause, and per return site path instances until one is found reachable
+	// (sites are examined in parallel, the instances of one site in order, at most 24 of them)
 	coverRes := make([]SolverResult, len(ex.covers))
-	perSite := map[string]int{}
+	coverBySite := map[string][]int{}
+	var coverOrder []string
 	for i, c := range ex.covers {
-		perSite[c.Site]++
-		if perSite[c.Site] > 2 {
-			coverRes[i] = SolverResult{Status: "skipped"}
-			continue
+		coverRes[i] = SolverResult{Status: "skipped"}
+		if _, ok := coverBySite[c.Site]; !ok {
+			coverOrder = append(coverOrder, c.Site)
 		}
+		coverBySite[c.Site] = append(coverBySite[c.Site], i)
+	}
+	for _, site := range coverOrder {
+		idxs := coverBySite[site]
 		wg.Add(1)
-		go func(i int, c *Oblig) {
+		go func(idxs []int) {
 			defer wg.Done()
 			sem <- struct{}{}
 			defer func() { <-sem }()
-			asserts := append([]*Term{}, ex.axioms...)
-			asserts = append(asserts, c.Hyps...)
-			coverRes[i] = solveWith(backends[:1], ex.env.d, asserts, nil, 2, false, c.Site)
-			if coverRes[i].Status != "sat" && coverRes[i].Status != "unsat" {
-				coverRes[i] = solveWith(backends[2:3], ex.env.d, asserts, nil, 2, false, c.Site)
+			for n, i := range idxs {
+				if n >= 24 {
+					break
+				}
+				c := ex.covers[i]
+				asserts := append([]*Term{}, ex.axioms...)
+				asserts = append(asserts, c.Hyps...)
+				coverRes[i] = solveWith(backends[:1], ex.env.d, asserts, nil, 2, false, c.Site)
+				if coverRes[i].Status != "sat" && coverRes[i].Status != "unsat" {
+					coverRes[i] = solveWith(backends[2:3], ex.env.d, asserts, nil, 2, false, c.Site)
+				}
+				if coverRes[i].Status != "unsat" {
+					break // reachable (or undecided): enough for this site
+				}
 			}
-		}(i, c)
+		}(idxs)
 	}
 	wg.Wait()
 	for _, site := range order {
@@ -292,8 +307,21 @@ func solveFunction(fr *FuncResult, opts CheckOpts) {
 		fr.CoverBad = append(fr.CoverBad, "no return is reachable under the contract (vacuous)")
 	}
 	for s := range retSites {
-		if !retSiteSat[s] {
-			ex.warnings = append(ex.warnings, "unreachable return site "+s)
+		ord := 0
+		if i := strings.LastIndex(s, "#"); i >= 0 {
+			ord, _ = strconv.Atoi(s[i+1:])
+		}
+		declared := ex.spec != nil && ex.spec.DeadReturns[ord]
+		switch {
+		case !retSiteSat[s] && declared:
+			ex.warnings = append(ex.warnings, "return site "+s+" is unreachable under the contract, as declared (deadreturn)")
+		case !retSiteSat[s] && ex.spec != nil && ex.spec.Lemma:
+			ex.warnings = append(ex.warnings, "unreachable return site "+s+" (lemma harness)")
+		case !retSiteSat[s]:
+			// everything proved about this return is vacuous: contradictory callee contracts or hypotheses
+			fr.CoverBad = append(fr.CoverBad, "return site "+s+" is unreachable under the contract (what is proved about it is vacuous); declare it with `deadreturn` if that is intended")
+		case declared:
+			fr.CoverBad = append(fr.CoverBad, "return site "+s+" is declared deadreturn but is reachable")
 		}
 	}
 }
